@@ -588,6 +588,22 @@ func runC07(c *Ctx) {
 			c.Eval(false, "")
 			return
 		}
+		oversize := false
+		for _, d := range domains {
+			oversize = oversize || len(d) > 255
+		}
+		if oversize {
+			// a "domain" of more than 255 bytes is not a DNS name and cannot be carried by a profile
+			// (cfg.TransformDNS keeps 255 bytes): outside the property (and outside dns_roundtrip's
+			// hypothesis). When Write accepts it all the same, only "Read does not panic" is checked;
+			// the packet-buffer overflow behaviour of Write is not modelled (DESIGN B.4).
+			if _, pan := guard(func() error { var b recSink; return t.Read(sink.all(), &b) }); pan != "" {
+				c.Fail("panic", "panic:transform.DNS.Read:"+domainShape(domains), pan, in)
+			}
+			c.Count("dns:oversize-domain:write-accepted(outside the property)")
+			c.Eval(false, "")
+			return
+		}
 		if single && n < 20000 {
 			c.Op(fmt.Sprintf("dnsenc %s %s %s %s", srv, hx([]byte(domains[0])), hx(payload), hxChunks(sink.w)), fmt.Sprintf("ok n=%d", len(sink.w)))
 		}
